@@ -99,6 +99,7 @@ struct Sim {
     last_reads: [[[u32; MAX_TASKS]; N_SLOTS]; 2],
     constructed: [[u32; N_SLOTS]; 2],
     task_events: [u32; MAX_TASKS],
+    seam_calls: u64,
     events: Vec<Event>,
     races: Vec<Race>,
     double_constructs: Vec<DoubleConstruct>,
@@ -115,6 +116,7 @@ impl Sim {
             last_reads: [[[0; MAX_TASKS]; N_SLOTS]; 2],
             constructed: [[0; N_SLOTS]; 2],
             task_events: [0; MAX_TASKS],
+            seam_calls: 0,
             events: Vec::new(),
             races: Vec::new(),
             double_constructs: Vec::new(),
@@ -132,6 +134,7 @@ impl Sim {
         self.last_reads = [[[0; MAX_TASKS]; N_SLOTS]; 2];
         self.constructed = [[0; N_SLOTS]; 2];
         self.task_events = [0; MAX_TASKS];
+        self.seam_calls = 0;
         self.events.clear();
         self.races.clear();
         self.double_constructs.clear();
@@ -158,7 +161,11 @@ fn scheduling_point() {
 /// give the scheduler a chance to run someone else, then log it.  Returns the index of the
 /// event in the log, or `None` when the monitor is inactive.
 fn seam(table: u8, slot: u8, kind: Kind) -> Option<usize> {
-    let active = SIM.with(|s| s.borrow().active);
+    let active = SIM.with(|s| {
+        let mut s = s.borrow_mut();
+        s.seam_calls += 1;
+        s.active
+    });
     if !active {
         return None;
     }
@@ -419,6 +426,12 @@ pub mod sim {
     /// Seam events performed so far by `task` (read by the scheduler for stall triggers).
     pub fn task_events(task: usize) -> u32 {
         SIM.with(|s| s.borrow().task_events[task])
+    }
+
+    /// Seam calls since `begin`, counted whether or not the monitor is active (the reference
+    /// pass uses it to derive the step bound of the raced executions).
+    pub fn seam_calls() -> u64 {
+        SIM.with(|s| s.borrow().seam_calls)
     }
 
     pub fn n_events() -> usize {
